@@ -7,7 +7,7 @@ import numpy as np
 import torch as tn
 import torchtt
 import torchtt._amen as AM
-from common import Case, dense_tokens, core_tokens, out_dense
+from common import Case, dense_tokens, core_tokens, out_dense, cores_tokens
 from gen import int_tensor, dense_of
 from util import J
 
@@ -154,14 +154,187 @@ def monitor_cases(rng, tier, stats):
     return cases
 
 
+def trace_cases(res, rng, tier):
+    """Tie of the INLINE einsum chains of torchtt/_dmrg.py: the local variables of running dmrg_matvec_python / dmrg_hadamard_python are read from
+    outside (sys.settrace) just before the environments and the supercore are stored; each recorded (operands -> result) triple is recomputed
+    by the Lean kernels dmrgPhiBck / dmrgPhiFwd / dmrgSuper in exact rational arithmetic on the very floats of the run and compared (1e-9)."""
+    import torchtt._dmrg as DM
+    from trace import LocalsTracer
+    from common import run_driver, parse_num
+    pts = {"bck": "Phis[k] = Phi", "super": "b = tn.linalg.norm(W)", "fwd": "Phis[k+1] = Phi_next+0"}
+    lines, expect, labels = [], [], []
+    n_runs = 6 if tier == "quick" else 40
+    broken = []
+    for c in range(n_runs):
+        had = c % 2 == 1
+        cplx = c % 3 == 2
+        dt = tn.complex128 if cplx else tn.float64
+        d = rng.choice([2, 3, 3, 4])
+        N = [rng.randint(1, 3) for _ in range(d)]
+        M = list(N) if had else [rng.randint(1, 3) for _ in range(d)]
+        RA = [1] + [rng.randint(1, 3) for _ in range(d - 1)] + [1]
+        Rx = [1] + [rng.randint(1, 3) for _ in range(d - 1)] + [1]
+        tn.manual_seed(rng.randrange(1 << 30))
+        x = torchtt.TT(rnd_cores(rng, [[Rx[k], N[k], Rx[k + 1]] for k in range(d)], dt, False))
+        if had:
+            A = torchtt.TT(rnd_cores(rng, [[RA[k], N[k], RA[k + 1]] for k in range(d)], dt, False))
+            fn, args, opname = DM.dmrg_hadamard_python, (A, x), "z"
+        else:
+            A = torchtt.TT(rnd_cores(rng, [[RA[k], M[k], N[k], RA[k + 1]] for k in range(d)], dt, False))
+            fn, args, opname = DM.dmrg_matvec_python, (A, x), "A"
+        kind = "h" if had else "m"
+        label = "%s/d%d/%s" % ("dmrg_hadamard" if had else "dmrg_matvec", d, "c128" if cplx else "f64")
+
+        def on(name, loc, kind=kind, opname=opname, label=label):
+            k = loc["k"]
+            op = loc[opname].cores
+            xc = loc["x"].cores
+            if name == "bck":
+                lines.append(J("dmrgbck", kind, dense_tokens(loc["Phis"][k + 1]), core_tokens(loc["y_cores"][k]), core_tokens(op[k]), core_tokens(xc[k])))
+                expect.append(loc["Phi"].detach().clone()); labels.append(label + "/phi_bck")
+            elif name == "fwd":
+                lines.append(J("dmrgfwd", kind, dense_tokens(loc["Phis"][k]), core_tokens(loc["y_cores"][k]), core_tokens(op[k]), core_tokens(xc[k])))
+                expect.append(loc["Phi_next"].detach().clone()); labels.append(label + "/phi_fwd")
+            elif name == "super" and not loc["last"]:
+                lines.append(J("dmrgsuper", kind, dense_tokens(loc["Phis"][k]), dense_tokens(loc["Phis"][k + 2]),
+                               core_tokens(op[k]), core_tokens(xc[k]), core_tokens(op[k + 1]), core_tokens(xc[k + 1])))
+                expect.append(loc["W"].detach().clone()); labels.append(label + "/supercore")
+                # loop invariant: the stored environments are the partial contractions of the CURRENT result cores (foldFwdA / foldBckA)
+                ys = loc["y_cores"]
+                dd = len(xc)
+                fk = "hconj" if kind == "h" else "conj"
+                if k > 0:
+                    lines.append(J("foldA", "fwd", fk, cores_tokens(ys[:k], False), cores_tokens(op[:k], kind == "m"), cores_tokens(xc[:k], False)))
+                    expect.append(loc["Phis"][k].detach().clone()); labels.append(label + "/env_left")
+                if k + 2 < dd:
+                    lines.append(J("foldA", "bck", fk, cores_tokens(ys[k + 2:], False), cores_tokens(op[k + 2:], kind == "m"), cores_tokens(xc[k + 2:], False)))
+                    expect.append(loc["Phis"][k + 2].detach().clone()); labels.append(label + "/env_right")
+        tr = LocalsTracer(fn, pts, on)
+        if tr.missing:
+            broken.append("%s: source pattern(s) %s not found" % (fn.__name__, tr.missing))
+            continue
+        try:
+            with tr:
+                fn(*args, nswp=2, eps=1e-10, kickrank=2)
+        except Exception as e:
+            broken.append("%s raised under tracing: %s" % (fn.__name__, type(e).__name__))
+    for b in broken:
+        res.violation({"property": "C11", "kind": "correspondence", "class": "dmrg-inline/trace", "case": b, "impl_outcome": b,
+                       "model_outcome": "observation points of the inline kernels", "note": "the inline-kernel tie of _dmrg.py cannot be established"}, no_input=True)
+    if not lines:
+        return
+    outs = run_driver(lines)
+    for line, exp, lab, mo in zip(lines, expect, labels, outs):
+        res.model_cases += 1
+        toks = mo.split()
+        ok = toks and toks[0] == "dn"
+        worst = float("inf")
+        if ok:
+            nd = int(toks[1]); dims = [int(t) for t in toks[2:2 + nd]]
+            ok = dims == list(exp.shape)
+            if ok:
+                vals = [parse_num(t) for t in toks[2 + nd:]]
+                mv = tn.tensor([complex(float(v[0]), float(v[1])) for v in vals], dtype=tn.complex128).reshape(dims)
+                worst = float((mv - exp.to(tn.complex128)).abs().max()) if mv.numel() else 0.0
+        scale = max(1.0, float(exp.abs().max()) if exp.numel() else 1.0)
+        if ok and worst <= 1e-9 * scale:
+            res.core_equal += 1
+        else:
+            res.violation({"property": "C11", "kind": "correspondence", "class": "dmrg-inline/" + lab, "case": line[:1500],
+                           "impl_outcome": "shape %s" % (list(exp.shape),), "model_outcome": "%s ; max deviation %.3g" % (mo[:200], worst),
+                           "note": "an inline einsum chain of _dmrg.py computes something else than the Lean kernel on the operands of the run"}, no_input=True)
+    res.extra["dmrg_inline_kernel_evaluations"] = len(lines)
+
+
+def trace_amen(res, rng, tier):
+    """Loop tie of _amen_mm_python (amen_mm / amen_mv): before every local update the stored environments Phis_rhs are, up to a positive scalar,
+    the folds foldFwdAB / foldBckAB (theorems foldFwdAB_eq, abxSweep_eq_dense) of the CURRENT iterate, and the local update equals
+    Kern.localAB on them — evaluated by the Lean model in exact rationals on the floats of the run."""
+    from trace import LocalsTracer
+    from common import run_driver, parse_num
+    pts = {"local": "norm_solution = tn.linalg.norm(solution_now)"}
+    lines, expect, labels, modes = [], [], [], []
+    broken = []
+    for c in range(3 if tier == "quick" else 24):
+        d = rng.choice([2, 3, 3, 4])
+        M = [rng.randint(1, 3) for _ in range(d)]
+        N = [rng.randint(1, 3) for _ in range(d)]
+        K = [1] * d if c % 2 == 0 else [rng.randint(1, 2) for _ in range(d)]
+        RA = [1] + [rng.randint(1, 3) for _ in range(d - 1)] + [1]
+        RB = [1] + [rng.randint(1, 3) for _ in range(d - 1)] + [1]
+        tn.manual_seed(rng.randrange(1 << 30))
+        A = torchtt.TT(rnd_cores(rng, [[RA[k], M[k], N[k], RA[k + 1]] for k in range(d)], tn.float64, False))
+        label = "amen_%s/d%d" % ("mv" if c % 2 == 0 else "mm", d)
+        count = [0]
+
+        def on(name, loc, label=label, count=count, d=d):
+            count[0] += 1
+            if count[0] > 2 * d:
+                return
+            k = loc["k"]
+            xs = [t.detach().clone() for t in loc["x_cores"]]
+            Ac, Bc = loc["A_cores"], loc["B_cores"]
+            PL, PR = loc["Phis_rhs"][k], loc["Phis_rhs"][k + 1]
+            lines.append(J("localAB", dense_tokens(PL), dense_tokens(PR), core_tokens(Ac[k]), core_tokens(Bc[k])))
+            expect.append((loc["solution_now"] / loc["nrmsc"]).detach().clone()); labels.append(label + "/local_update"); modes.append("dir")
+            if k > 0:
+                lines.append(J("foldAB", "fwd", cores_tokens(Ac[:k], True), cores_tokens(Bc[:k], True), cores_tokens(xs[:k], True)))
+                expect.append(PL.detach().clone()); labels.append(label + "/env_left"); modes.append("dir")
+            if k + 1 < d:
+                lines.append(J("foldAB", "bck", cores_tokens(Ac[k + 1:], True), cores_tokens(Bc[k + 1:], True), cores_tokens(xs[k + 1:], True)))
+                expect.append(PR.detach().clone()); labels.append(label + "/env_right"); modes.append("dir")
+        tr = LocalsTracer(AM._amen_mm_python, pts, on)
+        if tr.missing:
+            broken.append("_amen_mm_python: source pattern(s) %s not found" % tr.missing)
+            continue
+        try:
+            with tr:
+                if c % 2 == 0:
+                    x = torchtt.TT(rnd_cores(rng, [[RB[k], N[k], RB[k + 1]] for k in range(d)], tn.float64, False))
+                    torchtt.amen_mv(A, x, eps=1e-8, nswp=3, kickrank=2, use_cpp=False)
+                else:
+                    B = torchtt.TT(rnd_cores(rng, [[RB[k], N[k], K[k], RB[k + 1]] for k in range(d)], tn.float64, False))
+                    torchtt.amen_mm(A, B, eps=1e-8, nswp=3, kickrank=2)
+        except Exception as e:
+            broken.append("_amen_mm_python raised under tracing: %s: %s" % (type(e).__name__, str(e)[:100]))
+    for bmsg in broken:
+        res.violation({"property": "C11", "kind": "correspondence", "class": "amen-loop/trace", "case": bmsg, "impl_outcome": bmsg,
+                       "model_outcome": "observation point before the local update", "note": "the loop tie of _amen_mm_python cannot be established"}, no_input=True)
+    if not lines:
+        return
+    outs = run_driver(lines)
+    for line, exp, lab, mo in zip(lines, expect, labels, outs):
+        res.model_cases += 1
+        toks = mo.split()
+        ok = bool(toks) and toks[0] == "dn"
+        worst = float("inf")
+        if ok:
+            nd = int(toks[1]); dims = [int(t) for t in toks[2:2 + nd]]
+            ok = dims == list(exp.shape)
+            if ok:
+                vals = [parse_num(t) for t in toks[2 + nd:]]
+                mv = tn.tensor([float(v[0]) for v in vals], dtype=tn.float64).reshape(dims)
+                na, nb = float(tn.linalg.norm(mv)), float(tn.linalg.norm(exp))
+                worst = float((mv / na - exp / nb).abs().max()) if na > 0 and nb > 0 else (0.0 if na == nb else float("inf"))
+        if ok and worst <= 1e-8:
+            res.core_equal += 1
+        else:
+            res.violation({"property": "C11", "kind": "correspondence", "class": "amen-loop/" + lab, "case": line[:1500],
+                           "impl_outcome": "shape %s" % (list(exp.shape),), "model_outcome": "%s ; max deviation %.3g" % (mo[:200], worst),
+                           "note": "a quantity stored by the running AMEn product loop differs (beyond a positive scalar) from the Lean kernel / fold on the operands of the run"}, no_input=True)
+    res.extra["amen_mm_loop_state_evaluations"] = len(lines)
+
+
 def run(res, rng, tier, known):
     from common import run_cases
     stats = []
     cases = kernel_cases(rng, tier) + monitor_cases(rng, tier, stats)
     run_cases(res, cases, known)
+    trace_cases(res, rng, tier)
+    trace_amen(res, rng, tier)
     if stats:
         res.extra["contract_monitor_runs"] = len(stats)
         res.extra["contract_monitor_max_error_over_eps"] = max(s[2] for s in stats)
         res.extra["contract_monitor_note"] = "monitor = differential execution against the acceptance predicate of the property; testing, not an obligation discharged"
     return {"level": LEVEL, "rule": RULE, "assumptions": ASSUMPTIONS,
-            "not_by_theorem": ["the error bound ||y - Ax|| <= C eps ||Ax|| (kind K: monitored only)", "the inline einsums of _dmrg.py (covered by the monitor and by the shared structure with the AMEn kernels only)"]}
+            "not_by_theorem": ["the error bound ||y - Ax|| <= C eps ||Ax|| (kind K: monitored only)", "the loop structure of _dmrg.py around its inline kernels (truncation, kick, convergence tests): monitor only; the inline kernels themselves are tied by observation of the running function"]}
